@@ -42,6 +42,7 @@ type ctrlWorld struct {
 	listFaultKind string
 	slowSync      bool // the sync of list listFaultAt-1 takes 2.5 periods (a slow filter)
 	slowArmed     atomic.Bool
+	overflow      bool // a burst of more than EventBufsiz changes arrives while the controller is busy in a sync
 	backlog       int // server changes since the watch was last seen connected at a quiescent point
 }
 
@@ -134,14 +135,13 @@ func (w *ctrlWorld) observe() {
 	// reading the cache waits for a sync in progress (a slow filter keeps the controller busy): everything
 	// else is looked at after that, and after whatever the controller had pending has settled
 	cache := cacheSx(w.root.Cache())
-	if w.slowSync {
+	if w.slowSync || w.overflow {
 		// the slow sync may begin during any of these waits (the relist is due within the period's fuzz);
 		// it happens once, so the third read cannot block
-		for i := 0; i < 2; i++ {
+		for i := 0; i < 3; i++ {
 			w.wait()
 			cache = cacheSx(w.root.Cache())
 		}
-		w.wait()
 	}
 	evs := "()"
 	evclosed := false
@@ -259,11 +259,15 @@ func runCtrlScenario(t *testing.T, tr *tracer, idx int, seed uint64, mode string
 		w.srv.RVStep = 1 + r.Intn(3)
 		w.srv.StaleList = r.Chance(1, 3) // a slow or gated list answers with what the server held when it was asked
 		emptyRV := mode == "" && !w.slowSync && w.listFaultAt == 0 && r.Chance(1, 10)
+		if mode == "" && !w.slowSync && !emptyRV && w.listFaultAt == 0 && r.Chance(1, 9) {
+			w.overflow = true
+			w.period = kv.Pick(r, []time.Duration{10 * time.Second, time.Minute})
+		}
 		if emptyRV {
 			// a server whose lists carry no resource version of their own
 			w.srv.EmptyListRV = true
 		}
-		if r.Chance(1, 4) && !w.slowSync && !emptyRV {
+		if r.Chance(1, 4) && !w.slowSync && !emptyRV && !w.overflow {
 			w.srv.ListLatency = kv.Pick(r, []time.Duration{100 * time.Millisecond, w.period / 4})
 			if w.srv.ListLatency > time.Hour {
 				w.srv.ListLatency = time.Second
@@ -302,6 +306,24 @@ func runCtrlScenario(t *testing.T, tr *tracer, idx int, seed uint64, mode string
 		if w.srv.StaleList {
 			tr.line(kv.L("stalelist"))
 		}
+		if w.overflow {
+			// the controller-level filter takes two seconds once, in the middle of a sync, and meanwhile the server
+			// changes more often than the watch buffers hold: changes are lost (the code logs "event missed"),
+			// the next relists must repair that, and Close must still return
+			w.srvEvent()
+			rootF = kv.Term{Op: "and", Kids: []kv.Term{rootF, {Op: "fn", N: 2}}}
+			kv.FNHook = func() {
+				if w.slowArmed.CompareAndSwap(true, false) {
+					tr.line(kv.L("overflow"))
+					for i := kcache.EventBufsiz*3/2 + r.Intn(kcache.EventBufsiz); i > 0; i-- {
+						w.backlog = 0
+						w.srvEvent()
+					}
+					time.Sleep(2 * time.Second)
+				}
+			}
+			defer func() { kv.FNHook = nil }()
+		}
 		for i := r.Intn(4); i > 0; i-- {
 			w.srvEvent()
 		}
@@ -335,6 +357,13 @@ func runCtrlScenario(t *testing.T, tr *tracer, idx int, seed uint64, mode string
 		steps := 10 + r.Intn(16)
 		if w.slowSync {
 			for i := 0; i < w.listFaultAt+4 && !isClosed(root.Done()); i++ {
+				w.step("advance-period", func() { w.advance(w.period + w.period/6) })
+			}
+		}
+		if w.overflow {
+			w.step("advance-period", func() { w.advance(w.period + w.period/6) })
+			w.slowArmed.Store(true)
+			for i := 0; i < 3; i++ {
 				w.step("advance-period", func() { w.advance(w.period + w.period/6) })
 			}
 		}
